@@ -4,6 +4,7 @@ func (g *Gen) tables(id string) {
 	g.ruleLemmas(id)
 	g.symbolObligations(id)
 	g.sortObligations(id)
+	g.castObligations(id)
 }
 
 // thoroughExtras: the thorough tier differs from quick in solver budget (60 s per obligation
